@@ -37,6 +37,9 @@ func opts(in input, chain []xf.M) rty.XOpts {
 		NamedSome: true, Sets: true, TextU: true, Embedded: true, StructElem: true, Maps: true, Slices: true, Arrays: true,
 		UserPtrs: true, DialsTags: true, Desc: true, PoolNames: true, ElemUnexported: true, ElemNested: true, OddTagValues: true, OddNames: true}
 	for _, m := range chain {
+		if m.From != nil && !namedOnly(in) {
+			o.Favor = m.From
+		}
 		if m.Kind == "flatten" || m.Kind == "reformat" {
 			// the case encoders' Title step (x/text word segmentation) is modelled for
 			// plain words only: no quotes, blanks, ... in names that get re-cased
@@ -63,6 +66,9 @@ func opts(in input, chain []xf.M) rty.XOpts {
 	}
 	return o
 }
+
+// namedOnly: the named-variants sweep replaces every scalar by its named version
+func namedOnly(in input) bool { return in.K == "named" }
 
 func run(raw json.RawMessage) driver.Result {
 	var in input
